@@ -6,6 +6,9 @@
                          exactly when the new count is <= 0, and the offset cleared is the one of that section
   C11.b restart guard    in each next*: the unwrap of the section start is dominated by the `count == 0 -> None` test on
                          the *current* header count, and rrs_left is re-initialised only under `offset.is_none()`
+  C11.d tombstone        (shared with C10.c) in delete, the cursor offset is tested (`ok_or(VoidRecord)?`) before any destructive event and
+                         before any unwrap/expect of it: a second deletion through the same cursor returns VoidRecord, it neither touches
+                         the packet nor panics
   C11.c termination      = C03.a: advances and rrs_left decrements are paired on every path (rrs_left strictly decreases
                          between re-initialisations, each of which follows a count decrement)
 
@@ -134,49 +137,57 @@ class DeleteAu(Automaton):
         return (sec, nres, nxt, inv, ndec, zero, cur, clr, fl)
 
 
+def delete_protocol_rule(ctx, facts, cfg, rid):
+    sect_disc = {v['name']: int(v['discr']) for v in facts.adts.get('constants::Section', {}).get('variants', [])}
+    keys = facts.inst_keys('rr_iterator::TypedIterable::delete')
+    if len(keys) < 2:
+        ctx.violation(rid, '<floor>', 'delete instances', 'found %d instantiations of TypedIterable::delete, expected 2' % len(keys), kind='below-floor')
+    au = DeleteAu(facts, sect_disc)
+    flow = PathFlow(facts, au)
+    for key in keys:
+        f = facts.fns[key]
+        exits = flow.summary(key, DeleteAu.init)
+        problems = {}
+        oks = 0
+        for (q, kind) in sorted(exits, key=repr):
+            if kind != 'Ok':
+                continue
+            oks += 1
+            sec, nres, nxt, inv, ndec, zero, cur, clr, fl = q
+            ps = set(fl)
+            if nres != 1:
+                ps.add('resize_rr-called-%s-times' % nres)
+            if not nxt:
+                ps.add('set_offset_next-missing')
+            if not inv:
+                ps.add('invalidate-missing')
+            if ndec != 1:
+                ps.add('rrcount_dec-called-%s-times' % ndec)
+            if zero is True and not clr:
+                ps.add('section-offset-not-cleared-when-count-reaches-zero')
+            if zero is None:
+                ps.add('no-count-reached-zero-test')
+            for p in ps:
+                problems.setdefault(p, (q, kind))
+        ctx.instance(rid, '%s: %d successful path classes follow the delete protocol' % (key, oks), ok=not problems and oks > 0, site=f['at'])
+        if oks == 0:
+            ctx.violation(rid, key, 'no-ok-path', 'no successful path found through delete', site=f['at'], kind='undecided', config=cfg)
+        for p, (q, kind) in sorted(problems.items()):
+            w = flow.witness(key, DeleteAu.init, q, kind)
+            ctx.violation(rid, key, p, 'delete protocol broken in %s: %s' % (key.split('@')[-1], p.replace('-', ' ')), site=f['at'],
+                          path=flow.describe_path(key, w), config=cfg)
+
+
 def run(ctx):
     for cfg in ctx.configs():
         facts = ctx.facts(cfg)
         sect_disc = {v['name']: int(v['discr']) for v in facts.adts.get('constants::Section', {}).get('variants', [])}
         # ---------------------------- C11.a ------------------------------------
-        rid = 'C11.a'
-        keys = facts.inst_keys('rr_iterator::TypedIterable::delete')
-        if len(keys) < 2:
-            ctx.violation(rid, '<floor>', 'delete instances', 'found %d instantiations of TypedIterable::delete, expected 2' % len(keys), kind='below-floor')
-        au = DeleteAu(facts, sect_disc)
-        flow = PathFlow(facts, au)
-        for key in keys:
-            f = facts.fns[key]
-            exits = flow.summary(key, DeleteAu.init)
-            problems = {}
-            oks = 0
-            for (q, kind) in sorted(exits, key=repr):
-                if kind != 'Ok':
-                    continue
-                oks += 1
-                sec, nres, nxt, inv, ndec, zero, cur, clr, fl = q
-                ps = set(fl)
-                if nres != 1:
-                    ps.add('resize_rr-called-%s-times' % nres)
-                if not nxt:
-                    ps.add('set_offset_next-missing')
-                if not inv:
-                    ps.add('invalidate-missing')
-                if ndec != 1:
-                    ps.add('rrcount_dec-called-%s-times' % ndec)
-                if zero is True and not clr:
-                    ps.add('section-offset-not-cleared-when-count-reaches-zero')
-                if zero is None:
-                    ps.add('no-count-reached-zero-test')
-                for p in ps:
-                    problems.setdefault(p, (q, kind))
-            ctx.instance(rid, '%s: %d successful path classes follow the delete protocol' % (key, oks), ok=not problems and oks > 0, site=f['at'])
-            if oks == 0:
-                ctx.violation(rid, key, 'no-ok-path', 'no successful path found through delete', site=f['at'], kind='undecided', config=cfg)
-            for p, (q, kind) in sorted(problems.items()):
-                w = flow.witness(key, DeleteAu.init, q, kind)
-                ctx.violation(rid, key, p, 'delete protocol broken in %s: %s' % (key.split('@')[-1], p.replace('-', ' ')), site=f['at'],
-                              path=flow.describe_path(key, w), config=cfg)
+        delete_protocol_rule(ctx, facts, cfg, 'C11.a')
+        # ---------------------------- C11.d ------------------------------------
+        from rules import C10
+        from analysis.pkt import PacketEvents
+        C10.tombstone_rule(ctx, facts, cfg, PacketEvents(facts), 'C11.d', (('rr_iterator::TypedIterable::delete', False),), 2)
         # ---------------------------- C11.b ------------------------------------
         rid = 'C11.b'
         n = 0
